@@ -5,7 +5,9 @@ nothing twice, nothing lost).  Ties on the real mloda:
   T2  streamed SYNC runs: begin order, set of yielded steps and outcome = model (chk_sync_stream in vm_compute);
   end to end: list(stream_run) vs run as multisets of tables, per mode; every yielded key is a distinct requested
   feature-group step; consumer behaviours (drain, stop after k items for every k, exception in the consumer) leave no
-  thread behind and the session stays usable; repeated streamed runs on one session.
+  thread behind and the session stays usable; repeated streamed runs on one session;
+  family `live` (harness/c13_live.py, Model/SessionLive.v): two or three streams of ONE session consumed in PRNG-chosen
+  interleavings (SYNC, THREADING, a MULTIPROCESSING sample), judged per stream against the batch result and replayed by chk_live.
 """
 from __future__ import annotations
 
@@ -145,7 +147,10 @@ def run(rep: vlib.Reporter, tier: str, seed: int) -> None:
         "hand-written model Model/Orch.v: compute_stream = compute + drain of result_data_collection after each loop iteration "
         "(run.py, data_lifecycle_manager.pop_result_data_collection); tied by streamed SYNC traces",
         "generator finalisation (try/finally in mlodaAPI.stream_run, GeneratorExit on close/GC) is runtime behaviour: observed "
-        "(threads left behind, session reusable), not modelled"]
+        "(threads left behind, session reusable), not modelled",
+        "hand-written model Model/SessionLive.v of live runs (Engine.compute's deepcopy = private step_is_done flags per run; a "
+        "generator suspended between two events); tied by observed interleavings of 2-3 streams replayed by chk_live; in THREADING / "
+        "MULTIPROCESSING the replay uses the fair schedule and compares which items were delivered, not at which iteration"]
     n = 250 if tier == "thorough" else 36
     specs, gstats = gen_specs(rng, n)
     from harness.c01 import cq_foot, EXTRA as C01_EXTRA
@@ -222,6 +227,12 @@ def run(rep: vlib.Reporter, tier: str, seed: int) -> None:
         found = True
     n_runs += 2 if tier == "thorough" else 1
     dist["slow_consumer_cases"] = 2 if tier == "thorough" else 1
+    # interleaved consumption of several live streams of one session (Model/SessionLive.v, harness/c13_live.py)
+    from harness import c13_live
+    live_found, live_info, live_n = c13_live.live_family(rep, tier, random.Random(seed * 7919 + 1313))
+    found = found or live_found
+    n_runs += live_n
+    dist["live_family"] = live_info
     for i in bad[:5]:
         r = recs[i]
         if r["sync_stream"]["status"] == "raised" and not r["sync_stream"]["raised"]:
@@ -235,7 +246,10 @@ def run(rep: vlib.Reporter, tier: str, seed: int) -> None:
     rep.add("traces_validated_against_impl", len(recs))
     rep.add("rule", "request DAGs as in C01 (harness/daggen.py); per spec: streamed SYNC run vs model; per mode {SYNC, THREADING "
                     "(skipped for plans inside the known planner-defect domains)}: batch vs stream multisets, key uniqueness, "
-                    "stop-after-k for every k, consumer exception, thread leak, re-run. non-trivial = >= 2 streamed items")
+                    "stop-after-k for every k, consumer exception, thread leak, re-run. non-trivial = >= 2 streamed items; family live: "
+                    "chains of >= 3 dependent requested feature-group steps, 2-3 streams of one session driven in a PRNG-chosen "
+                    "interleaving (drain / close after k / consumer exception / failing run / batch run in between / per-stream api_data); "
+                    "non-trivial = >= 2 runs opened on a plan with >= 3 requested feature-group steps")
     rep.sample({"spec": recs[0]["spec"], "sync_stream": recs[0]["sync_stream"], "modes": recs[0]["modes"]})
     if not pr.ok and not found:
         rep.finding("proof-broken", "Props/C13.v no longer checks",
@@ -249,6 +263,10 @@ def replay(path: str) -> int:
         from harness import worker_proto
         vlib.build_props("Worker")
         print(worker_proto.slow_consumer_case(11.0, "C13"))
+        return 0
+    if r.get("kind") == "live":
+        from harness import c13_live
+        print(json.dumps(c13_live.replay_case(r), indent=1, default=str))
         return 0
     if r.get("kind") == "e2e-mp":
         from harness import c13_mp
